@@ -2125,6 +2125,11 @@ impl Lpc {
                 "must be shorter than (or equal to) `qlpc::MAX_ORDER`",
             )
         })?;
+        verify_true!(
+            "warm_up",
+            warm_up.len() == parameters.order(),
+            "must have the same length as the order of `parameters`"
+        )?;
         let ret = Self::from_parts(warm_up, parameters, residual, bits_per_sample as u8);
         ret.verify()?;
         Ok(ret)
@@ -2225,6 +2230,12 @@ impl QuantizedParameters {
         shift: i8,
         precision: usize,
     ) -> Result<Self, VerifyError> {
+        verify_range!("order", order, ..=MAX_LPC_ORDER)?;
+        verify_true!(
+            "coefs",
+            coefs.len() == order,
+            "must have the same length as `order`"
+        )?;
         let ret = Self::from_parts(coefs, order, shift, precision);
         // `QuantizedParameter` doesn't have a child component, so calling
         // `verify` here is not redundant whereas it incurs redundant checks
@@ -2322,6 +2333,16 @@ impl Residual {
         remainders: &[u32],
     ) -> Result<Self, VerifyError> {
         // Some pre-construction verification
+        verify_range!(
+            "partition_order",
+            partition_order,
+            ..=(crate::constant::rice::MAX_PARTITION_ORDER)
+        )?;
+        verify_true!(
+            "rice_params",
+            rice_params.len() == 1usize << partition_order,
+            "must have one parameter for each partition"
+        )?;
         let ret = Self::from_parts(
             partition_order as u8,
             block_size,
